@@ -6,6 +6,7 @@
     (tools/translate_ctx.py -> build/C03/gen/CtxAsmGen.v), where
       C03_all_sites     : forallb ctx_check sites = true
       C03_make_context  : mk_check_empty mk_empty_ops && mk_check_voidcall mk_voidcall_ops = true
+      C03_custom_data   : cd_check cd_layout = true
       C03_current_tree  : the conclusion of C03_ctx_check_sound for every pair of extracted sites
     are closed by vm_compute on the regenerated data.  Ctx/CtxAsmPinned.v is a committed snapshot
     used only for the Examples below. *)
@@ -160,6 +161,35 @@ Theorem C03_make_context_voidcall : forall ops stack,
 Proof. exact mk_voidcall_aligned. Qed.
 Print Assumptions C03_make_context_voidcall.
 
+(** the custom-data (work-stealing hint) region carved off the top of a new thread's stack by
+    myth_create_ex_body: for EVERY hint size > 0 and every stack top [stk] of the allocator the
+    region [ptr, ptr+size) receives the creation-time copy, ends at or below the block's size
+    word (stk+8), keeps 16-alignment, and starts at or above the stack top on which the context is
+    made; the initial rsp of either entry style (and for voidcall the word holding the function
+    address) is at or below that stack top and 16-aligned - frames grow down from the initial
+    rsp, so no frame of the thread can overlap its hint, and a hint update through
+    myth_wsapi_get_hint_ptr cannot touch the suspended thread's frames.
+    (64 <= top: the hint fits into the stack block - a usage precondition.) *)
+Theorem C03_custom_data_disjoint : forall c te tv p eops vops,
+  cd_check c = true ->
+  cd_empty_top c = Some te -> cd_voidcall_top c = Some tv -> cd_ptr c = Some p ->
+  mk_check_empty eops = true -> mk_check_voidcall vops = true ->
+  forall stk size, 0 < size -> stk < W64 ->
+    64 <= lin_eval stk size te -> 64 <= lin_eval stk size tv ->
+    let ptr := lin_eval stk size p in
+    ptr mod 16 = stk mod 16 /\ ptr + size <= stk + 8 /\
+    (exists d n, cd_copy_dst c = Some d /\ cd_copy_len c = Some n /\
+                 lin_eval stk size d = ptr /\ lin_eval stk size n = size) /\
+    (exists sp, m_rsp (mk_run eops (lin_eval stk size te)) = Some sp /\
+                sp mod 16 = 0 /\ sp <= lin_eval stk size te <= ptr /\
+                lin_eval stk size te mod 16 = stk mod 16) /\
+    (exists sp, m_rsp (mk_run vops (lin_eval stk size tv)) = Some sp /\
+                m_func (mk_run vops (lin_eval stk size tv)) = Some sp /\
+                sp mod 16 = 0 /\ sp + 8 <= lin_eval stk size tv <= ptr /\
+                lin_eval stk size tv mod 16 = stk mod 16).
+Proof. exact custom_data_disjoint. Qed.
+Print Assumptions C03_custom_data_disjoint.
+
 (* ------------------------------------------------------------------ *)
 (** * non-vacuity: the hypotheses are met by the sites of the pinned tree and by concrete states *)
 
@@ -238,3 +268,19 @@ Proof. vm_compute; reflexivity. Qed.
 Example rejects_misaligned_empty_context :
   mk_check_empty [MkAnd (W64 - 16); MkSetRsp (-8)] = false.
 Proof. vm_compute; reflexivity. Qed.
+
+(** the carve-out of the pinned tree is accepted; the by-value refactoring that loses the lowered
+    stack top is rejected, with concrete overlapping bytes *)
+Example pinned_custom_data_accepted : cd_check cd_layout = true.
+Proof. vm_compute; reflexivity. Qed.
+
+Example pinned_custom_data_hypotheses :
+  cd_empty_top cd_layout = Some (mkLin 1 (-16) (-1) 0) /\ cd_ptr cd_layout = Some (mkLin 1 0 (-1) 0) /\
+  64 <= lin_eval d_rsp0 100 (mkLin 1 (-16) (-1) 0) /\ d_rsp0 < W64 /\ diag_cd cd_layout = [].
+Proof. vm_compute. repeat split; discriminate. Qed.
+
+Example rejects_lost_carve :
+  let c := mkCarve (Some (mkLin 1 0 0 0)) (Some (mkLin 1 0 0 0)) (Some (mkLin 1 0 (-1) 0))
+                   (Some (mkLin 1 0 (-1) 0)) (Some (mkLin 0 0 0 1)) true in
+  cd_check c = false /\ In (10, 1, d_rsp0 - 16, d_rsp0 - 15) (diag_cd c).
+Proof. vm_compute. split; [reflexivity|left; reflexivity]. Qed.
